@@ -225,7 +225,7 @@ PROPS = {
     ),
     "C04": dict(
         props="Props/C04.v", tables=["core", "uvl"],
-        suites=[suite_uvl.run_c04],
+        suites=[suite_uvl.run_c04, suite_uvl.run_c04_known],
         rule=("suites R-uvl-emitter (documents written by an independent reference emitter exercising the language's "
               "syntactic freedom: quoting of plain names, redundant parentheses, end-of-line comments, several children under one "
               "group keyword, explicit Boolean, namespace / include / imports headers) read by UVLReader and "
@@ -297,7 +297,14 @@ def _c10_key(f):
     return None
 
 
-FINDING_KEYS = {"C18": _c18_key, "C10": _c10_key}
+def _known_key(f):
+    """clauses of the form  known:<finding key>:...  (fixed documents reproducing a listed finding)"""
+    if f["clause"].startswith("known:"):
+        return f["clause"].split(":")[1]
+    return None
+
+
+FINDING_KEYS = {"C18": _c18_key, "C10": _c10_key, "C04": _known_key}
 
 
 def replay(ctx, info, path):
